@@ -85,6 +85,13 @@ def gen_inner(rng, tag, cfg):
             stages[-1] = pup("%si%d" % (tag, n - 1), {"t": "talker", "writes": [{"fd": 1, "hex": (own + "\n").encode().hex()}],
                                                       "code": 0, "on_epipe": "exit"})
         return stages, "stream"
+    if k < 79:
+        # a builtin in front of a program: the program reads whatever the builtin prints (at least the alias defined
+        # at the top of the script) and then prints a text of its own
+        own = gen_text(rng, dict(cfg, inner_newlines=False), rng.choice([3, 12, 40])) or "own"
+        return [{"kind": "builtin", "text": "alias"},
+                pup(tag + "i1", {"t": "io", "read": "all", "rchunk": 65536, "code": 0,
+                                 "writes": [{"fd": 1, "hex": (own + "\n").encode().hex()}]})], "bhead"
     if k < 83:
         return [{"kind": "builtin", "text": "alias"}], "opaque"
     if k < 92:
@@ -163,6 +170,8 @@ def gen_scenario(rng, cfg):
             lines.append({"stages": [pup(tag + "a", {"t": "ignorer", "code": 0}, args=["$W%d" % ci])], "probe": False,
                           "uses_var": ci})
         lines.append({"stages": [pup("prb%d" % ci, {"t": "ignorer", "code": 0}, args=["$V", "$?"])], "probe": True})
+    if any(x["kind"] == "bhead" for l in lines for x in l.get("subs", [])):
+        lines.insert(1, {"stages": [{"kind": "builtin", "text": "alias zq='true'"}], "probe": False})
     sc = {"prop": "C11", "lines": lines, "externals": [], "faults": {}, "files": {}}
     if cfg.get("faults"):
         kind = rng.choice(["pipe", "fork"])
@@ -379,6 +388,8 @@ class C11Runner(LineRunner):
 
     def check_line_done(self, line, status):
         sim = self.sim
+        if (line.get("text") or "").startswith("alias zq="):
+            self.alias_defined = True
         if "subs" in line:
             for k, sub in enumerate(line["subs"]):
                 order = line.get("sub_order")
@@ -393,6 +404,11 @@ class C11Runner(LineRunner):
                         raise Violation("inner_ran_n_times", "%s was started %d times" % (st.label(), st.started))
                     if st.pid is not None and not st.gone:
                         raise Violation("no_termination", "line finished while inner command %s is alive" % st.label())
+                if sub["kind"] == "bhead" and getattr(self, "alias_defined", False):
+                    if G.stages[-1].read_total == 0:
+                        raise Violation("stream_corrupt", "inside the substitution %s got nothing from the builtin in front "
+                                        "of it (`alias` with one alias defined prints a line)" % G.stages[-1].label())
+                    sim.probe("builtin_feeding_a_program_inside_a_substitution")
             if line["form"] == "assign":
                 w = self.expected_word(line)
                 idx = [i for i, l in enumerate(self.sc["lines"]) if l is line][0]
